@@ -310,12 +310,17 @@ def r7_csv_dialect(ctx):
     flt = ctx.fn(RDR, "CsvReader.filter")
     calls = [c for c in ast.walk(flt) if isinstance(c, ast.Call) and call_name(c) == "csv.reader"]
     ctx.floor("C12.R7", "csv.reader calls in CsvReader.filter", len(calls), 1)
+    # the lines handed to csv.reader are the input lines minus their terminator: stripping arbitrary whitespace removes leading / trailing delimiters (tab)
+    strips = [k for k in ast.walk(flt) if isinstance(k, ast.Call) and call_tail(k) in ("strip", "rstrip", "lstrip") and isinstance(parent(k), (ast.GeneratorExp, ast.ListComp)) and parent(k).elt is k]
+    ctx.ob("C12.R7", RDR, "CsvReader.filter", strips[0] if strips else flt, "only line terminators are stripped from a row before it is parsed (a leading or trailing delimiter belongs to the row)",
+           all(k.args and const_str(k.args[0]) is not None and set(const_str(k.args[0])) <= set("\r\n") for k in strips), detail={"strips": [unparse(k) for k in strips]}, stmt="csv row stripping")
     for c in calls:
         kws = [(k.arg, unparse(k.value)) for k in c.keywords]
         ctx.ob("C12.R7", RDR, "CsvReader.filter", c, "csv.reader receives only the stored dialect", kws == [(None, "self._dialect")], detail={"keywords": kws})
 
 
 CONTROLS = [
+    ("csv rows stripped of all whitespace", RDR, M.replace_expr("CsvReader.filter", "i.strip('\\r\\n')", "i.strip()"), "C12.R7"),
     ("only LF completes a line", SRC, M.replace_expr("DelimSource.read", "text[-1].splitlines()[0]", "text[-1] != '\\n'"), "C12.R2"),
     ("batched sink truncates on every batch", SNK, M.delete_stmt("DiskSink.__exit__", M.text_has("if self._mode[:1] == 'w': self._mode = 'a' + self._mode[1:]")), "C12.R3"),
     ("backslash escape injected into the csv dialect", RDR, M.replace_expr("CsvReader.__init__", "dialect", "{'escapechar': '\\\\', **dialect}", nth=0), "C12.R7"),
